@@ -9,6 +9,7 @@ import (
 	"math/big"
 	"os"
 	"path/filepath"
+	"sync"
 	"time"
 	"unicode"
 )
@@ -746,6 +747,9 @@ of bits in the byte.`,
 	CurrentPackage *Package
 
 	gensymCounter = Fixnum(99)
+	// gensymMu protects gensymCounter which is read and set by gensym in
+	// any routine.
+	gensymMu sync.Mutex
 )
 
 func init() {
@@ -802,12 +806,16 @@ func setErrorOutput(value Object) {
 }
 
 func getGensymCounter() Object {
+	gensymMu.Lock()
+	defer gensymMu.Unlock()
 	return gensymCounter
 }
 
 func setGensymCounter(value Object) {
 	if counter, ok := value.(Fixnum); ok {
+		gensymMu.Lock()
 		gensymCounter = counter
+		gensymMu.Unlock()
 		callSetHooks(clPkg, "*gensym-counter*")
 	} else {
 		TypePanic(NewScope(), 0, "*gensym-counter*", value, "fixnum")
